@@ -47,7 +47,7 @@ theorem walk_lossless_po (s : Array Nat) :
     ∃ es, walk .po s = .done es ∧ Tiles s.size 0 0 es ∧
       (es.map (Entry.all s)).flatten = s.toList := by
   simpa [walk] using walk_lossless _ s 0 ()
-    (progress_of_eok _ _ (fun _ off h => getNext_eok poCfg poCfg_ok s off h))
+    (progress_of_eok _ _ (fun _ off h => getNext_eok poCfg _ poCfg_ok s off h))
 
 /-- the localizable-only view is exactly the entity and junk entries of the full view -/
 theorem localizable_is_filter (f : Fmt) (s : Array Nat) (es : List Entry) (h : walk f s = .done es) :
@@ -87,12 +87,60 @@ theorem fluent_localizable_is_filter (s : Array Nat) (body : List FEntry) :
 /-- every entity's key span lies inside its own span (regex formats) -/
 theorem key_inside (f : Fmt) (s : Array Nat) (es : List Entry) (h : walk f s = .done es) :
     ∀ e ∈ es, e.kind = .entity → (e.s : Int) ≤ e.ks ∧ e.ks ≤ e.ke ∧ e.ke ≤ (e.e : Int) := by
-  have hk : ∀ off e', EOK s.size off e' → KeyIn e' := fun _ _ h => h.2.2.2
   cases f <;> simp only [walk] at h
-  · exact walkFrom_all _ _ KeyIn (fun _ off ho => hk _ _ (propsGetNext_eok s off ho)) _ _ _ _ h
-  · exact walkFrom_all _ _ KeyIn (fun _ off ho => (dtdGetNext_ok s off ho).2.2.2.2) _ _ _ _ h
-  · exact walkFrom_all _ _ KeyIn (fun _ off ho => hk _ _ (iniGetNext_eok s off ho)) _ _ _ _ h
-  · exact walkFrom_all _ _ KeyIn (fun fel off ho => hk _ _ (definesGetNext_eok s fel off ho)) _ _ _ _ h
-  · exact walkFrom_all _ _ KeyIn (fun _ off ho => hk _ _ (getNext_eok poCfg poCfg_ok s off ho)) _ _ _ _ h
+  · exact walkFrom_all _ _ KeyIn (fun _ off ho => (propsGetNext_eok s off ho).keyIn) _ _ _ _ h
+  · exact walkFrom_all _ _ KeyIn (fun _ off ho => (dtdGetNext_ok s off ho).2.2.2.2.1) _ _ _ _ h
+  · exact walkFrom_all _ _ KeyIn (fun _ off ho => (iniGetNext_eok s off ho).keyIn) _ _ _ _ h
+  · exact walkFrom_all _ _ KeyIn (fun fel off ho => (definesGetNext_eok s fel off ho).keyIn) _ _ _ _ h
+  · exact walkFrom_all _ _ KeyIn (fun _ off ho => (getNext_eok poCfg _ poCfg_ok s off ho).keyIn) _ _ _ _ h
+
+/-- the value span lies inside the entity span -/
+def ValNormal (e : Entry) : Prop := (e.s : Int) ≤ e.vs ∧ e.vs ≤ e.ve ∧ e.ve ≤ (e.e : Int)
+
+/-- defines (.inc): the optional `val` group took no part in the match (`#define a`), Python's `m.span('val')` is (-1, -1) -/
+def ValAbsent (e : Entry) : Prop := e.vs = -1 ∧ e.ve = -1
+
+/-- DTD: the value is a lone apostrophe (`'[^']*'?` with the closing apostrophe missing, `<!ENTITY a '>`);
+    trimming the quotes gives the inverted span (p+1, p), still inside the entity -/
+def ValLoneQuote (e : Entry) : Prop := e.ve + 1 = e.vs ∧ (e.s : Int) ≤ e.ve ∧ e.vs ≤ (e.e : Int)
+
+/-- per format: only defines can produce `ValAbsent`, only DTD can produce `ValLoneQuote` -/
+def ValInsideFor (f : Fmt) (e : Entry) : Prop :=
+  match f with
+  | .inc => ValNormal e ∨ ValAbsent e
+  | .dtd => ValNormal e ∨ ValLoneQuote e
+  | _ => ValNormal e
+
+def ValInside (e : Entry) : Prop := ValNormal e ∨ ValAbsent e ∨ ValLoneQuote e
+
+/-- every entity's value span lies inside its own span, up to the degenerate encoding of its format -/
+theorem val_inside_fmt (f : Fmt) (s : Array Nat) (es : List Entry) (h : walk f s = .done es) :
+    ∀ e ∈ es, e.kind = .entity → ValInsideFor f e := by
+  cases f <;> simp only [walk] at h
+  · exact walkFrom_all _ _ (ValIn VNormal) (fun _ off ho => (propsGetNext_eok s off ho).valIn) _ _ _ _ h
+  · exact walkFrom_all _ _ (ValIn VDtd) (fun _ off ho => (dtdGetNext_ok s off ho).2.2.2.2.2) _ _ _ _ h
+  · exact walkFrom_all _ _ (ValIn VNormal) (fun _ off ho => (iniGetNext_eok s off ho).valIn) _ _ _ _ h
+  · exact walkFrom_all _ _ (ValIn VInc) (fun fel off ho => (definesGetNext_eok s fel off ho).valIn) _ _ _ _ h
+  · exact walkFrom_all _ _ (ValIn VNormal) (fun _ off ho => (getNext_eok poCfg _ poCfg_ok s off ho).valIn) _ _ _ _ h
+
+/-- every entity's value span lies inside its own span, or is one of the two degenerate encodings (regex formats) -/
+theorem val_inside (f : Fmt) (s : Array Nat) (es : List Entry) (h : walk f s = .done es) :
+    ∀ e ∈ es, e.kind = .entity → ValInside e := by
+  intro e he hk
+  have := val_inside_fmt f s es h e he hk
+  cases f <;> simp only [ValInsideFor] at this
+  · exact Or.inl this
+  · exact this.elim Or.inl (fun h => Or.inr (Or.inr h))
+  · exact Or.inl this
+  · exact this.elim Or.inl (fun h => Or.inr (Or.inl h))
+  · exact Or.inl this
+
+/-- non-vacuity, defines: `#define a` is an entity without value group, encoded (-1, -1) -/
+example : walk .inc #[35, 100, 101, 102, 105, 110, 101, 32, 97] =
+    .done [{ kind := .entity, full := 0, s := 0, e := 9, ks := 8, ke := 9, vs := -1, ve := -1 }] := by decide
+
+/-- non-vacuity, DTD: `<!ENTITY a '>` is an entity whose trimmed value span is inverted, (12, 11) -/
+example : walk .dtd #[60, 33, 69, 78, 84, 73, 84, 89, 32, 97, 32, 39, 62] =
+    .done [{ kind := .entity, full := 0, s := 0, e := 13, ks := 9, ke := 10, vs := 12, ve := 11 }] := by decide
 
 end C01
